@@ -421,7 +421,9 @@ pub fn run(report: &Report, thorough: bool) -> Evidence {
                     o.english = english;
                     o.ansi = ansi;
                     o.via_update = wci % 2 == 1;
-                    o.churn = wci % 2 == 0;
+                    o.churn = wci == 0;
+                    // (the third: created for the phonetic method, switched to the layout by update-engine)
+                    o.via_switch = wci == 2;
                     let mut c = Ctx::new(&o).expect("ctx");
                     c.with_pre = false;
                     v.push(c);
